@@ -613,12 +613,12 @@ def c16_signature_offenders(run):
         return None
     vf = os.path.join(run.wdir, "offenders.v")
     open(vf, "w").write("From Coq Require Import String List.\nFrom HB Require Import Gen.GenTypes Model.Borrow.\n"
-                        "Eval vm_compute in (map (fun g => (s_owner g, s_name g, negb (rule_U g), negb (rule_B g), negb (rule_L g))) "
+                        "Eval vm_compute in (map (fun g => (s_owner g, s_name g, negb (rule_U g), negb (rule_B g), negb (rule_L g), negb (rule_S g))) "
                         "(filter (fun g => negb (sig_ok g)) gen_sigs)).\n")
     rc, out = H.sh(["coqc", "-noglob", "-Q", "theories", "HB", vf], cwd=H.COQ, timeout=600)
     if rc != 0:
         return None
-    offs = re.findall(r'\("([^"]+)",\s*"([^"]+)",\s*(true|false),\s*(true|false),\s*(true|false)\)', out.replace("\n", " "))
+    offs = re.findall(r'\("([^"]+)",\s*"([^"]+)",\s*(true|false),\s*(true|false),\s*(true|false),\s*(true|false)\)', out.replace("\n", " "))
     src = {}
     try:
         gt = open(os.path.join(H.COQ, "theories", "Gen", "GenTypes.v")).read()
@@ -627,8 +627,9 @@ def c16_signature_offenders(run):
     except OSError:
         pass
     res = []
-    for o, n, u, b, l in offs:
+    for o, n, u, b, l, sh in offs:
         why = []
+        if sh == "true": why.append("(S) it is a `&self` method of a handle that holds the unique borrow of the collection, and its return type names that borrow's lifetime: the result outlives the `&self` borrow, so the handle can be advanced or dropped while the result still points into the table")
         if u == "true": why.append("(U) its return type can write or move out through a borrow (`&mut`, or a handle type holding the unique borrow of the collection) but the receiver is not `&mut self` / `self`")
         if b == "true": why.append("(B) its return type borrows but there is no receiver and no borrowed argument to borrow from")
         if l == "true": why.append("(L) a named lifetime of its return type is not bound by the impl block or by an input of the fn")
@@ -685,6 +686,7 @@ def check_c16(run):
 
 HT = lambda f: f.text
 LEAKY = ("zero-sized elements with drop glue", "different allocator instance", "double drop", "leak", "never dropped", "blocks still allocated", "wrong layout", "unknown block", "already been dropped", "double drops")
+TWICE = ("double drop", "double drops", "already been dropped", "unknown block", "wrong layout", "different allocator instance")
 MEMORY = ("double drop", "red zone", "invalid layout", "unknown block", "wrong layout", "MISALIGNED", "misaligned reference", "SLOT_OUT_OF_BLOCK", "already been dropped", "two mutable references", "assertion")
 
 def gen_fault_scripts(tier, seed, variant):
@@ -787,6 +789,11 @@ def gen_layout_scripts(tier, seed, variant):
     # clear / retain is releasing elements, a hasher that panics inside a rehash): the (callback x operation) matrix
     for i in range(n // 4):
         out.append(gen_map.make_fault_matrix_script(rng, f"yf{seed}_{i}", kind="map-drop"))
+    # zero-sized elements (plain, over-aligned, with drop glue) and tiny ones: insert, remove, retain /
+    # extract_if / drain from many different buckets -- for a zero-sized type the bucket `pointer` is an
+    # encoded index, decoded again by erase / remove (deterministic)
+    for i, kind in enumerate(["table-zst", "table-zst64", "table-zstd", "table-1", "table-a64"]):
+        out.append(gen_table.make_zst_removal_script(rng, f"yz{seed}_{i}", kind))
     return "".join(out)
 
 def gen_clone_scripts(tier, seed, variant):
@@ -815,6 +822,10 @@ def gen_release_fault_scripts(tier, seed, variant):
     for i in range(n):
         out.append(gen_map.make_script(rng, f"rf{seed}_{i}", kind="map-drop", clone_ops=True, faults=rng.choice([0.15, 0.3]),
                                        arms=["clonepanic_nth", "clonepanic_nth", "hashpanic_nth", "refuse_nth"]))
+    # a destructor that panics while drain / into_iter / clear / retain / drop / clone_from release elements
+    # may leak the rest, but nothing may be released TWICE (scripts rd*: judged for double releases only)
+    for i in range(3 if tier == "quick" else 10):
+        out.append(gen_map.make_fault_matrix_script(rng, f"rd{seed}_{i}", kind="map-drop", only_arm="droppanic_nth"))
     return "".join(out)
 
 def gen_zst_token_scripts(tier, seed, variant):
@@ -829,7 +840,7 @@ def gen_zst_token_scripts(tier, seed, variant):
 def check_c03(run):
     return script_property(
         run, lambda tier, seed, v: gen_map_scripts(tier, seed, v) + gen_table_scripts(tier, seed + 1, v) + gen_clone_scripts(tier, seed + 2, v) + gen_release_fault_scripts(tier, seed + 3, v) + gen_par_scripts(tier, seed + 4, v) + gen_zst_token_scripts(tier, seed, v),
-        relevant=lambda f: f.kind == "CRASH" or (f.kind == "H-FAIL" and any(k in f.text for k in LEAKY)),
+        relevant=lambda f: f.kind == "CRASH" or (f.kind == "H-FAIL" and any(k in f.text for k in (TWICE if (f.script or "").startswith("rd") else LEAKY))),
         rule="HashMap / HashTable / clone-family histories with drop-tracked elements (every key and value object carries a serial number in a registry) and the ledger allocator: after EVERY operation each object ever created must be stored in a collection, held by the caller, or dropped exactly once; a second drop of a serial, a stored object that was already dropped, a release with a different layout than the request, and anything still alive or allocated after the collections are dropped are findings; leaving routes exercised: remove, overwrite, clear, retain, extract_if, drain (0, some, all consumed), into_iter / into_keys / into_values (0, some, all consumed; also on emptied but still allocated collections), shrink, clone_from into occupied targets, drop; interrupted operations (the k-th Clone or Hash call panics, a refused allocation) must not lose or duplicate an object either; allocator events are also compared in order with the extracted model; the owning iterators are compared step by step with Model/OwnIter.v (yielded elements, destructor and release events in order, incl. fold / for_each consumers that panic part-way and leaked iterators); the parallel owning iterators (into_par_iter, par_drain over maps, sets and tables, incl. short-circuiting consumers) run under the same registry")
 
 def check_c04(run):
@@ -907,6 +918,10 @@ def gen_capacity_scripts(tier, seed, variant):
     # tables whose capacity() has fallen to len() because every removal left a marker, then shrink_to_fit / shrink_to
     for i in range(4):
         out.append(gen_table.make_tomb_shrink_script(rng, f"kt{seed}_{i}"))
+    # a clustered block removed from a full run, then absent keys inserted: no allocator call while the
+    # collection's own capacity() - len() is positive
+    for i, kind in enumerate(["table-plain", "table-drop", "table-6"]):
+        out.append(gen_table.make_spare_capacity_script(rng, f"kp{seed}_{i}", kind))
     return "".join(out)
 
 def check_c08(run):
